@@ -1596,7 +1596,7 @@ namespace awkward {
                                           util::Parameters(),
                                           out.simplify_optiontype(),
                                           index.length(),
-                                          1);
+                                          length);
   }
 
   const ContentPtr getitem_next_missing_jagged(const SliceMissing64& missing,
@@ -1940,8 +1940,11 @@ namespace awkward {
 
   const ContentPtr
   Content::getitem_next_array_wrap(const ContentPtr& outcontent,
-                                   const std::vector<int64_t>& shape) const {
-    int64_t length = 1;
+                                   const std::vector<int64_t>& shape,
+                                   int64_t rows) const {
+    // `rows`: the number of rows the index array is applied to (the lengths
+    // below matter only where a size is 0)
+    int64_t length = rows;
     for (size_t j = 0;  j + 1 < shape.size();  j++) {
       length *= (int64_t)shape[j];
     }
@@ -1952,7 +1955,7 @@ namespace awkward {
                                      (int64_t)shape[shape.size() - 1],
                                      length);
     for (int64_t i = (int64_t)shape.size() - 2;  i >= 0;  i--) {
-      int64_t length = 1;
+      int64_t length = rows;
       for (int64_t j = 0;  j < i;  j++) {
         length *= (int64_t)shape[(size_t)j];
       }
